@@ -471,7 +471,7 @@ def check_main(prop, tier, master):
         extra = getattr(mod, "evidence_extra", None)
         if extra:
             ev["coverage"].update(extra(tier))
-        evdir = os.path.join(VERIF, "evidence")
+        evdir = os.environ.get("VERIF_EVIDENCE_DIR") or os.path.join(VERIF, "evidence")
         os.makedirs(evdir, exist_ok=True)
         if not os.environ.get("VERIF_NO_EVIDENCE"):
             with open(os.path.join(evdir, "%s.json" % prop), "w") as f:
